@@ -6,7 +6,8 @@ CHECK = {
     "technique": "stateless bounded-exhaustive enumeration of every emit entry point x transport x memory width x field values x sizes x payload contents on a real RegP, compared octet for octet with an independent encoder of doc/regp.txt and fed back through the library's own receiver",
     "rule": "a case fixes emitter, transport, memory width, answered request type, address and sequence number and runs every size x content (or payload value); each emission is compared with the reference encoding, received by a second RegP and compared field by field; every case is non-trivial",
     "assumptions": ["addresses, sequence numbers, payload contents from the closed sets in the harness (SLIP control octets included); sizes as stated in the bound",
-                    "the WORD-SIZE-16 bit of payload-less error responses is taken from the emitted frame (doc/regp.txt does not fix it)",
+                    "the WORD-SIZE-16 bit of payload-less error responses is taken from the emitted frame (doc/regp.txt does not fix it); so are the WORD-SIZE-16 bit, sequence number and address of meta messages ('only the meta field is used')",
+                    "the session's sequence counter is neither written nor read: request cases run on an instance that has emitted N earlier requests (N in {0, 1, 0xc0db, 0xffff}), the number is taken from the emitted frame and must be its predecessor's plus one; the first number of a session is not fixed by the statement",
                     "header checksum covers the six header words plus the payload-checksum word when present (convention fixed by the wire images in t-register-protocol.c, used as anchors)"],
     "harnesses": [{
         "name": "c08_emit", "src": "harness/c08_emit.c", "shape": "espace", "opt": "-O1",
